@@ -13,6 +13,8 @@ ARG_ORDER = {
     'get_mut': ['h'], 'make_mut': ['h'], 'into_raw': ['h', 'as'], 'as_ptr': ['h', 'as'], 'from_raw': ['r', 'as'],
     'inc_strong': ['r'], 'dec_strong': ['r'], 'w_into_raw': ['w', 'as'], 'w_from_raw': ['r', 'as'],
     'on_drop_panic': ['obj'], 'note': [], 'links': ['h'], 'clone_mode': ['mode'], 'new_from': ['obj', 'as'], 'new_from_box': ['obj', 'as'], 'eq': ['a', 'b'], 'ne': ['a', 'b'], 'lt': ['a', 'b'], 'le': ['a', 'b'], 'gt': ['a', 'b'], 'ge': ['a', 'b'], 'cmp': ['a', 'b'], 'partial_cmp': ['a', 'b'], 'drop_any': ['h'], 'cost_clone': ['h', 'as'], 'cost_drop': ['h'], 'drop_if': ['h'], 'drop_all_wextras': ['obj'],
+    'self_take': ['slot', 'as'], 'self_take_weak': ['slot', 'as'],
+    'hash': ['h'], 'fmt_display': ['h'], 'fmt_debug': ['h'], 'fmt_pointer': ['h'], 'wfmt_debug': ['w'],
 }
 
 
@@ -78,7 +80,7 @@ def parse_native(text):
             cur['trace'].append(['tcmp', w[1], int(w[2]), int(w[3])])
         elif w[0] == 'ret':
             v = w[2] if len(w) > 2 else None
-            if w[1] in ('eq', 'ne', 'lt', 'le', 'gt', 'ge', 'cmp', 'partial_cmp'):
+            if w[1] in ('eq', 'ne', 'lt', 'le', 'gt', 'ge', 'cmp', 'partial_cmp', 'hash', 'fmt_display', 'fmt_debug', 'fmt_pointer', 'wfmt_debug'):
                 pass
             elif v is not None and v.isdigit():
                 v = int(v)
